@@ -671,6 +671,14 @@ func specialShapes() []*shape {
 		sh.root = &structT{name: "B1", fields: []field{{name: "B1_Left", typ: "B1_Left", embedded: true, sub: left}, {name: "B1_Right", typ: "B1_Right", embedded: true, sub: right}}}
 		out = append(out, sh)
 	}
+	{ // a field behind an embedded pointer with the same name AND type as an outer field that sits at another offset
+		sh := &shape{name: "Q2", family: "embedptr"}
+		sh.decls = append(sh.decls, "type Q2_P int64", "type Q2_P_same int64", "type Q2_T int32", "type Q2_T_same int32", "type Q2_V int32", "type Q2_V_same int32")
+		k64, k32 := classes[5][0], classes[4][0]
+		in := &structT{name: "Q2_In", fields: []field{{name: "Pad", typ: "Q2_P", leaf: &k64}, {name: "X", typ: "Q2_T", leaf: &k32}}}
+		sh.root = &structT{name: "Q2", fields: []field{{name: "Q2_In", typ: "Q2_In", embedded: true, ptr: true, sub: in}, {name: "Y", typ: "Q2_V", leaf: &k32}, {name: "X", typ: "Q2_T", leaf: &k32}}}
+		out = append(out, sh)
+	}
 	for v := 0; v < 4; v++ { // same field name at two depths, different types; same type at two depths, different names
 		sh := &shape{name: fmt.Sprintf("D%d", v+1), family: "dup"}
 		in := &structT{name: sh.name + "_In"}
